@@ -17,7 +17,7 @@ REPLAYS = os.path.join(OUT, "replays")
 EVIDENCE = os.path.join(VERIF, "evidence")
 KNOWN = os.path.join(VERIF, "known_findings.json")
 
-TIER_EXECS = {"quick": 1400, "thorough": 30000}
+TIER_EXECS = {"quick": 2000, "thorough": 120000}
 
 
 def seed_of():
